@@ -1,6 +1,6 @@
 // C14 (framing, engine I): exhaustive input sweeps over the three real JSON-RPC framings
 // (RawStreamProto, HeaderStreamProto, PacketProto), ASan+UBSan.
-//   usage: frame_harness <family> <part> <nparts> <level>
+//   usage: frame_harness <family> <part> <nparts> <level> [maxseg]
 //   family: roundtrip | segment | packet | len | magic | trunc | bytes | mixed | envelope | deep
 //   level : 0 = quick bounds, 1 = thorough bounds
 // Every batch of cases runs in a forked child; the case in flight is published in shared memory, so
@@ -44,7 +44,7 @@ struct Shared {
   int nsample; char samples[4][1200];
 };
 static Shared *S;
-static int g_part = 0, g_nparts = 1, g_level = 0;
+static int g_part = 0, g_nparts = 1, g_level = 0, g_maxseg = 0;   // g_maxseg: 0 = full bound of the level, 2 = only 2-segment splits
 static double g_deadline = 1e18; static bool g_capped = false;
 static const char *g_family = "";
 
@@ -84,7 +84,10 @@ static void set_case(const std::string &cls, const std::string &text) {
 }
 static void end_case() { S->in_flight = 0; }
 
-static std::string cuts_text() { std::string s = " seg_ends=["; for (int i = 0; i < 4; i++) if (S->cut[i] >= 0) s += fmt("%s%ld", i ? "," : "", S->cut[i]); return s + "]"; }
+static std::string cuts_text() {
+  if (S->cut[0] < -1) return fmt(" segments=every-%ld-bytes", -S->cut[0] - 1);
+  bool any = false; std::string s = " seg_ends=["; for (int i = 0; i < 4; i++) if (S->cut[i] >= 0) { s += fmt("%s%ld", any ? "," : "", S->cut[i]); any = true; }
+  return any ? s + "]" : ""; }
 
 static void run_batch(const std::function<void()> &body) {
   if (expired()) return;
@@ -318,6 +321,20 @@ static void all_chunkings(int proto, Port &rx, const Stream &st, const Feed &ref
       add_viol(fmt("%s-%s-decodes-differently-from-unsegmented", PN[proto], what), rep + " got=" + show(f.msgs) + fmt(" ret=%zd leftover=%zu", f.err, f.leftover) + " unsegmented=" + show(ref.msgs)); return; }
   }
 }
+// hostile variant: byte-by-byte and every other fixed chunk size, only the message sequence is compared
+static void all_chunkings_hostile(int proto, Port &rx, const Stream &st, const Feed &ref) {
+  size_t L = st.bytes.size();
+  for (size_t c = 1; c < L; c++) {
+    std::vector<size_t> ends; for (size_t p = c; p < L; p += c) ends.push_back(p); ends.push_back(L);
+    S->executions++; for (int i = 0; i < 4; i++) S->cut[i] = -1; S->cut[0] = -(long)c - 1;
+    Feed f = feed(rx, st.bytes, ends.data(), (int)ends.size());
+    std::string rep = fmt("proto=%s bytes=\"", PN[proto]) + esc(st.bytes) + fmt("\" segments=every-%zu-bytes", c);
+    if (f.threw) { add_viol(fmt("%s-mixed-stream-segmented-throws", PN[proto]), rep + " what=" + f.what); return; }
+    if (f.overrun || f.msgs.size() != ref.msgs.size() || !std::equal(f.msgs.begin(), f.msgs.end(), ref.msgs.begin())) {
+      add_viol(fmt("%s-mixed-stream-segmented-decodes-differently-from-unsegmented", PN[proto]), rep + " got=" + show(f.msgs) + fmt(" ret=%zd leftover=%zu", f.err, f.leftover) + " unsegmented=" + show(ref.msgs)); return; }
+    if ((f.err != 0) != (ref.err != 0) || f.leftover != ref.leftover) S->status_diffs++;
+  }
+}
 static void fam_segment() {
   std::vector<Spec> pl = pool();
   int p3 = g_level ? (int)pl.size() : 4;           // pool prefix used for triples
@@ -325,8 +342,8 @@ static void fam_segment() {
   for (int a = 0; a < (int)pl.size(); a++) combos.push_back({a});
   for (int a = 0; a < (int)pl.size(); a++) for (int b = 0; b < (int)pl.size(); b++) combos.push_back({a, b});
   for (int a = 0; a < p3; a++) for (int b = 0; b < p3; b++) for (int c = 0; c < p3; c++) combos.push_back({a, b, c});
-  printf("@INFO segment: pool of %zu messages, %zu concatenations (<=2 of all, triples of the first %d) x 2 stream protos, every split into <=3 segments%s + every fixed chunk size for <=2 messages, part %d/%d\n",
-         pl.size(), combos.size(), p3, g_level ? " (<=4 for single messages)" : "", g_part, g_nparts);
+  printf("@INFO segment: pool of %zu messages, %zu concatenations (<=2 of all, triples of the first %d) x 2 stream protos, every split into <=%d segments%s + every fixed chunk size for <=2 messages, part %d/%d\n",
+         pl.size(), combos.size(), p3, g_maxseg ? g_maxseg : 3, (g_level && !g_maxseg) ? " (<=4 for single messages)" : "", g_part, g_nparts);
   long n = 0;
   for (int proto : {RAW, HDR}) for (auto &idx : combos) {
     if ((int)(n++ % g_nparts) != g_part) continue;
@@ -343,7 +360,7 @@ static void fam_segment() {
       else if (ref.err || ref.leftover || ref.overrun || ref.msgs.size() != st.want.size() || !std::equal(ref.msgs.begin(), ref.msgs.end(), st.want.begin()))
         add_viol(fmt("%s-concatenation-decodes-to-a-different-sequence", PN[proto]), rep + " got=" + show(ref.msgs) + fmt(" ret=%zd leftover=%zu", ref.err, ref.leftover) + " want=" + show(st.want));
       else {
-        all_splits(proto, rx, st, ref, (idx.size() == 1 && g_level) ? 4 : 3, "segmented");
+        all_splits(proto, rx, st, ref, g_maxseg ? g_maxseg : (idx.size() == 1 && g_level) ? 4 : 3, "segmented");
         if (idx.size() <= 2) all_chunkings(proto, rx, st, ref, "segmented");
         add_outcome(fmt("segment %s %zu-message stream: all segmentations equal", PN[proto], idx.size()));
         if (n % 37 == 1) add_sample(rep + " => " + show(ref.msgs) + " (+ all its segmentations)");
@@ -552,10 +569,11 @@ static void fam_bytes() {
 
 // valid message + hostile bytes + valid message, unsegmented vs segmented (stream framings): same message sequence
 static void fam_mixed() {
-  int l3 = g_level ? 3 : 2, l2 = g_level ? 3 : 3;   // strings up to l3 symbols get all <=3-segment splits; up to l2 all 2-segment splits
+  // strings up to l3 symbols get all <=3-segment splits; up to l2 all 2-segment splits
+  int l3 = g_maxseg == 2 ? -1 : g_level ? 3 : 2, l2 = g_maxseg == 2 ? (g_level ? 3 : 2) : 3;
   std::vector<std::string> all; enum_strings(std::max(l2, l3), [&](const std::string &s) { all.push_back(s); });
   std::vector<Spec> pl = pool();
-  printf("@INFO mixed: valid frame + %zu hostile strings (len<=%d) + valid frame, 2 stream protos; every split into <=3 segments for len<=%d, <=2 segments otherwise, part %d/%d\n", all.size(), std::max(l2, l3), l3, g_part, g_nparts);
+  printf("@INFO mixed: valid frame + %zu hostile strings (len<=%d) + valid frame, 2 stream protos; every split into <=3 segments for len<=%d, <=2 segments otherwise, every fixed chunk size for len<=1, part %d/%d\n", all.size(), std::max(l2, l3), l3, g_part, g_nparts);
   const size_t B = 40;
   long n = 0;
   for (int proto : {RAW, HDR}) for (size_t b0 = 0; b0 < all.size(); b0 += B) {
@@ -573,6 +591,7 @@ static void fam_mixed() {
         else if (ref.overrun) add_viol(fmt("%s-mixed-stream-consumed-more-than-presented", PN[proto]), S->text);
         else {
           all_splits(proto, rx, st, ref, (int)all[i].size() <= l3 ? 3 : 2, "mixed-stream-segmented");
+          if (all[i].size() <= 1) all_chunkings_hostile(proto, rx, st, ref);
           add_outcome(fmt("mixed %s: %zu message(s) then %s", PN[proto], ref.msgs.size(), ref.err ? "error" : ref.leftover ? "stall" : "clean"));
         }
         end_case();
@@ -587,7 +606,7 @@ static void fam_envelope() {
   auto big = [](const char *t) { return Json::parse(t); };
   std::vector<Json> ver = {ABSENT, "2.0", "1.0", 2, nullptr};
   std::vector<Json> method = {ABSENT, "m", 1, nullptr, Json::array()};
-  std::vector<Json> id = {ABSENT, 1, "1", 1.5, big("2147483648"), big("9223372036854775808"), big("18446744073709551615"), big("-9223372036854775808"), -1, nullptr, Json::object(), true, big("1e400")};
+  std::vector<Json> id = {ABSENT, 1, "1", 1.5, big("2147483648"), big("9223372036854775808"), big("18446744073709551615"), big("-9223372036854775808"), -1, nullptr, Json::object(), true, big("1e300")};
   std::vector<Json> params = {ABSENT, 1, Json::array(), Json::object()};
   std::vector<Json> result = {ABSENT, nullptr, 1};
   Json c1 = Json::object(); c1["code"] = 1; Json c2 = Json::object(); c2["code"] = "x"; Json c3 = Json::object(); c3["code"] = big("4294967296"); Json c4 = Json::object(); c4["code"] = 1.5;
@@ -632,7 +651,7 @@ static void fam_envelope() {
 
 // valid but hostile: very deep array nesting (a "batch of batches")
 static void fam_deep() {
-  std::vector<long> depths = {100, 1000, 10000, 100000, 1000000};
+  std::vector<long> depths = {100, 1000, 10000, 30000, 100000, 1000000};
   printf("@INFO deep: arrays nested %ld..%ld deep through 3 protos (one forked child each)\n", depths.front(), depths.back());
   long n = 0;
   for (long d : depths) for (int k = 0; k < NPROTO; k++) {
@@ -643,7 +662,7 @@ static void fam_deep() {
       std::string buf = k == HDR ? hdr_bytes(kMagic, (uint32_t)text.size()) + text : text;
       std::string cls = fmt("%s-deeply-nested-array", PN[k]); std::string rep = fmt("proto=%s bytes=%s'['x%ld + ']'x%ld", PN[k], k == HDR ? "header+" : "", d, d);
       set_case(cls, rep); S->states++;
-      Port rx(k); CallRes c; pt_unused: ;
+      Port rx(k); CallRes c;
       rx.got.clear(); S->executions++;
       c = call(*rx.p, buf.data(), buf.size());
       if (c.threw) add_viol(cls + "-throws", rep + " what=" + c.what);
@@ -654,7 +673,7 @@ static void fam_deep() {
 }
 
 int main(int argc, char **argv) {
-  g_family = argc > 1 ? argv[1] : "roundtrip"; g_part = argc > 2 ? atoi(argv[2]) : 0; g_nparts = argc > 3 ? atoi(argv[3]) : 1; g_level = argc > 4 ? atoi(argv[4]) : 0;
+  g_family = argc > 1 ? argv[1] : "roundtrip"; g_part = argc > 2 ? atoi(argv[2]) : 0; g_nparts = argc > 3 ? atoi(argv[3]) : 1; g_level = argc > 4 ? atoi(argv[4]) : 0; g_maxseg = argc > 5 ? atoi(argv[5]) : 0;
   const char *e = getenv("VERIF_DEADLINE_S"); g_deadline = real_now() + (e ? atof(e) : 600);
   S = (Shared *)mmap(nullptr, sizeof(Shared), PROT_READ | PROT_WRITE, MAP_SHARED | MAP_ANONYMOUS, -1, 0);
   if (S == MAP_FAILED) { perror("mmap"); return 3; }
